@@ -2,6 +2,7 @@
    run) equal the model's on every case. Compilation fails when they do not (then c09.py
    compiles ExtCasesDiag.v to locate the cases). *)
 From Verif Require Import ExtCasesDefs ExtCasesGen.
+From Verif Require Import ExtTlConv.
 Local Open Scope N_scope.
 
 Lemma rule_cases_match_model : rule_bad rule_cases = [].
@@ -19,6 +20,15 @@ Proof. vm_compute. reflexivity. Qed.
 Lemma limit_cases_match_model : forallb vcase_ok limit_cases = true.
 Proof. vm_compute. reflexivity. Qed.
 
+(* the recursion-depth checks: from_ast accepts an `n:` chain exactly when the model's bottom-up check does
+   (with the height the model computes), validate_non_top_level's depth verdicts equal validate_depth_ok *)
+Lemma depth_cases_match_model : forallb hcase_ok depth_cases = true.
+Proof. vm_compute. reflexivity. Qed.
+
+(* pkh / wpkh / sh(wpkh): max_weight_to_satisfy and max_satisfaction_weight are the model's constants *)
+Lemma keyonly_cases_match_model : forallb kcase_ok keyonly_cases = true.
+Proof. vm_compute. reflexivity. Qed.
+
 (* coverage of the theorem classes on this run's scripts: (cases, in ext_safe as_written, in ext_safe pre_fix) *)
 Eval vm_compute in (N.of_nat (length tree_cases), count_safe as_written tree_cases, count_safe pre_fix tree_cases).
 
@@ -33,3 +43,6 @@ Eval vm_compute in
   (let l := filter (fun t => match type_of (t_ms t), sat_data (ext_of (cx (t_ctx t)) (t_ms t)) with ROk _, Some _ => true | _, _ => false end) tree_cases in
    (N.of_nat (length l), N.of_nat (length (filter (fun t => depth_covered as_written (cx (t_ctx t)) (t_ms t)) l)),
     N.of_nat (length (filter (fun t => depth_covered pre_fix (cx (t_ctx t)) (t_ms t)) l)), N.of_nat (length tree_cases))).
+
+(* coverage of the exact-for-paths timelock theorem: (all scripts, of which in tl_total) -- LAST pair printed *)
+Eval vm_compute in (N.of_nat (length tree_cases), N.of_nat (length (filter (fun t => tl_total (t_ms t)) tree_cases))).
